@@ -10,7 +10,10 @@ class C07(EvalFamProp):
             'added with safe=False (25%), later stages overriding arguments, targets and placeholders of earlier ones; executions are '
             'attributed to nodes by frame inspection; non-trivial = the merged tree has a dynamic node and an unsafe node; distinct by SHA-1')
     ASSUMPTIONS = ['!rec and ayns.cfg/ayns.ctx access from evaluated code are outside the domain (documented escape hatches)',
-                   'unsafe scalars carry unique marker values so that their arrival in executed code is observable']
+                   'unsafe scalars carry unique marker values so that their arrival in executed code is observable',
+                   'containers are tracked by object identity: the object evaluated for a plain container node at a path that only unsafe '
+                   'content writes must not be among the arguments of an execution (references / expressions at such a path may alias safe objects); nodes written '
+                   'as !prev / !clear are not attributed (control of data flow by unsafe content: recorded, C07_clear_prev_counterexample)']
 
     def corpus(self):
         D = lambda *docs: {'docs': list(docs), 'style': ['flow', 0, 0]}
@@ -29,7 +32,36 @@ class C07(EvalFamProp):
             D(d(M({'a': Stext('b.c', 'xref'), 'b': M({'c': M({'x': S(6007, kw={'safe': False})})}), 'c': call('rec.f', {'a': Stext('b', 'xref')})}))),
             D(d(M({'steps': Q([call('rec.f', {})], tag='extend', kw={'safe': False})}))),                                           # S4-C07: an unsafe operator that becomes a plain list
             D(d(M({'k': S(1)})), d(M({'c': M({'h': Q([Stext('T(k)', 'eval')], tag='extend', kw={'safe': False})})})), d(M({'c': M({'h': Q([S(3)], tag='append')})}))),
+            # D40: the plain list an unsafe !extend / !append leaves behind (no destination) reached a call as `[]`
+            D(d(M({'steps': Q([], tag='extend', kw={'safe': False})})), d(M({'c': M({'a': Stext('steps', 'xref')}, tag={'k': 'bind', 'f': 'rec.f'})}))),
+            D(d(M({'steps': Q([], tag='extend')}), safe=False), d(M({'c': call('rec.f', {'a': Stext('steps', 'xref')})}))),
+            D(d(M({'steps': Q([], tag='append')}), safe=False), d(M({'c': call('rec.f', {'a': Stext('steps', 'xref')})}))),
+            D(d(M({'k': S(1)})), d(M({'d': M({'steps': Q([], tag='extend', kw={'safe': False})})})), d(M({'c': call('rec.f', {'a': Stext('d.steps', 'xref')})}))),
+            D(d(M({'steps': Q([], tag='extend')})), d(M({'c': call('rec.f', {'a': Stext('steps', 'xref')})}))),                         # safe operator: runs
         ]
+
+    @staticmethod
+    def _objids(obs, root, cfg, w):
+        """identity of every container of the evaluated config: {id: [path strings holding that object]}"""
+        ids = {}
+        def walk(v, path):
+            if isinstance(v, dict):
+                ids.setdefault(str(id(v)), []).append(NodePath.join_path(list(path)))
+                for k, x in v.items():
+                    if not isinstance(k, ConfigNode):
+                        walk(x, path + (native_key_py(k),))
+            elif isinstance(v, (list, tuple)):
+                ids.setdefault(str(id(v)), []).append(NodePath.join_path(list(path)))
+                for i, x in enumerate(v):
+                    walk(x, path + (i,))
+        try:
+            walk(cfg, ())
+        except Exception:
+            pass
+        obs['objids'] = ids
+
+    def impl(self, case):
+        return run_case(case['docs'], self.WORLD, tuple(case.get('style', ['flow', 0, 0])), extra=self._objids)
 
     def gen_cases(self, rng, n, tier):
         out = super().gen_cases(rng, n, tier)
@@ -56,6 +88,21 @@ class C07(EvalFamProp):
         unsafe_only = set(v for v in (uns - saf) if re.fullmatch(r'[0-9]{4,}', v))
         stages = doc_safety(case['docs'])
         by_path = {n['p']: n for n in nodes}
+        # containers: objects of the evaluated config that sit ONLY at paths written ONLY by unsafe content
+        unattributed = doc_moved_paths(case['docs'])
+        written = {}
+        for m in stages:
+            for pth, u in m.items():
+                written.setdefault(pth, []).append(u)
+        # only plain containers of the merged tree: their evaluated object is created on their behalf, whereas the value of a
+        # reference / an evaluated expression at an unsafe path may legitimately BE an object of safe content (aliasing)
+        unsafe_paths = set(pth for pth, us in written.items() if all(us) and pth not in unattributed and '*op*' not in pth
+                           and pth in by_path and by_path[pth]['kind'] == 'comp')
+        unsafe_objs = {}
+        for o, ps in io.get('objids', {}).items():
+            hit = [q for q in ps if q in unsafe_paths]
+            if hit:
+                unsafe_objs[o] = hit
         for what, path, safe, args in io.get('exec', []):
             if safe is False:
                 return f'{what} executed on behalf of the unsafe node at {path!r}'
@@ -68,6 +115,10 @@ class C07(EvalFamProp):
             for v in unsafe_only:
                 if re.search(r'(?<![0-9])' + re.escape(v) + r'(?![0-9])', args):
                     return f'value {v} originating from unsafe content reached the code executed for {path!r} ({what})'
+            for o in re.findall(r'"o": (-?[0-9]+)', args):
+                if o in unsafe_objs:
+                    return (f'the object evaluated at {unsafe_objs[o][0]!r}, a path written only by unsafe content, reached the code '
+                            f'executed for {path!r} ({what})')
         if 'ok' in io['cfg']:
             # a successful build must not contain the result of an unsafe dynamic node
             for n in nodes:
@@ -78,5 +129,24 @@ class C07(EvalFamProp):
     def nontrivial(self, case, io):
         ns = io.get('nodes', [])
         return any(n['kind'] in ('call', 'bind', 'eval', 'import') for n in ns) and any(not n['safe'] for n in ns)
+
+def native_key_py(k):
+    return sc_py(native_key(k))
+
+def doc_moved_paths(docs):
+    """path strings of nodes written as !prev / !clear (their value is content of other stages, moved or emptied)"""
+    out = set()
+    for d in docs:
+        def walk(n, path):
+            if (n.get('t') or {}).get('k') in ('prev', 'clear'):
+                out.add(NodePath.join_path(list(path)))
+            if 'm' in n:
+                for k, c in n['m']:
+                    walk(c, path + (sc_py(k),))
+            elif 'q' in n:
+                for i, c in enumerate(n['q']):
+                    walk(c, path + (i,))
+        walk(d['raw'], ())
+    return out
 
 PROP = C07()
